@@ -188,6 +188,17 @@ fn main() {
                         if !ok {
                             viol.push("lookup");
                         }
+                        // "writing a parsed configuration and parsing it again yields an equal configuration":
+                        // equal by the type's own `==`, also once a lookup has been made on it (the derived
+                        // equality used to compare the capacity hint that ingredients_info updates)
+                        if !w.is_empty() && w != "-" {
+                            let text = vh::unhex(&w);
+                            if let Ok(Ok(c2)) = guarded(|| aisle::parse(&text)) {
+                                if c2.categories == conf.categories && c2 != *conf {
+                                    viol.push("roundtrip_eq_after_lookup");
+                                }
+                            }
+                        }
                         l = if ents.is_empty() {
                             "-".into()
                         } else {
